@@ -15,7 +15,9 @@
             shared-scale clause of C10 (RunC10.rtab_prop: one precision and
             prefix per row, that of the least non-zero |centre|, every printed
             centre within half a unit of its last digit), against
-            Model/RowScale.v (RunC10.rtab_corr). *)
+            Model/RowScale.v (RunC10.rtab_corr);
+    kind 7: the CSV output of a whole run that encoding/csv could not read back
+            (raw bytes, the reader's message): never acceptable. *)
 From Perf Require Import Base.Bytes Base.Sx Model.Runes Model.TextTab Model.KeyHeader Model.LayoutObs Model.Render Model.RenderRun.
 From Perf Require Corr.RunC10.
 
@@ -96,7 +98,10 @@ Inductive case :=
 | KTextCsv (tables : list tc_table)                (* abstract table + real text + real CSV *)
 | KCsvTables (tabs : list (list bytes * rtable)) (recs : list (list bytes)) (warn : bytes)
 | KRun (fields : list bytes) (tabs : list (list bytes * rtable)) (text : bytes) (recs : list (list bytes)) (warn : bytes)
-| KRowScale (tabs : list RunC10.obs_rtab).
+| KRowScale (tabs : list RunC10.obs_rtab)
+(** the CSV output of a run that encoding/csv (the oracle for "is this CSV")
+    could not read back: the output bytes and the reader's message *)
+| KCsvMalformed (raw : bytes) (err : bytes).
 
 Definition decode (s : sx) : option case :=
   match s with
@@ -118,6 +123,7 @@ Definition decode (s : sx) : option case :=
       do tabs <- as_list (as_pair (as_list as_b) as_rtable) tabs; do recs <- as_list (as_list as_b) recs;
       Some (KRun fields tabs text recs warn)
   | SL [SZ 6; tabs] => do tabs <- RunC10.as_rtabs tabs; Some (KRowScale tabs)
+  | SL [SZ 7; SB raw; SB err] => Some (KCsvMalformed raw err)
   | _ => None
   end.
 
@@ -299,6 +305,7 @@ Definition corr_ok (c : case) : bool :=
          | None => false
          end
   | KRowScale tabs => forallb RunC10.rtab_corr tabs
+  | KCsvMalformed _ _ => false   (* the model writes records through csv.Writer: always readable *)
   end.
 
 (** [relax = false]: what the property says. [relax = true]: the same except
@@ -332,6 +339,7 @@ Definition prop_ok_gen (relax : bool) (c : case) : bool :=
   | KCsvTables _ recs warn => csv_tables_obs_ok recs warn
   | KRun fields tabs text recs warn => run_ok_gen relax fields tabs text recs warn
   | KRowScale tabs => forallb RunC10.rtab_prop tabs
+  | KCsvMalformed _ _ => false   (* -format csv must write CSV *)
   end.
 
 Definition prop_ok : case -> bool := prop_ok_gen false.
